@@ -49,6 +49,8 @@ def canon_value(v, ns=None):
         return [canon_value(x, ns) for x in v]
     if isinstance(v, float) and v == int(v):
         return int(v)
+    if v == "@@null":
+        return None      # a nil property value stored through the Go API (marker understood by the driver)
     return v
 
 
@@ -162,6 +164,21 @@ def case_term(codes, case, obs):
         elif k == "entities":
             pages = vlib.coq_list([vlib.coq_list([oent_term(codes, e, ns) for e in pg]) for pg in (oo.get("pages") or [])])
             terms.append("SEntities %d %s %s" % (ds_code(case, op["ds"]), vlib.coq_list([vlib.zlit(x) for x in op.get("limits", [])]), pages))
+        elif k == "get" and op.get("merge") and len(op.get("datasets", [])) != 1 and not op.get("at"):
+            # merged lookup over several datasets: the merged references are compared (Store.mergeInto on refs)
+            refs = []
+            if oo.get("found"):
+                e = oo["ents"][0]
+                for kk, v in (e.get("refs") or {}).items():
+                    cv = canon_ref(v, ns)
+                    arr = isinstance(cv, list)
+                    tg = cv if arr else [cv]
+                    refs.append((codes.ucode(expand(kk, ns)), arr, [codes.ucode(t) if isinstance(t, str) else -1 for t in tg]))
+            refs.sort()
+            rs = vlib.coq_list(["(%d, {| rv_arr := %s; rv_tgts := %s |})" % (kk, vlib.coq_bool(a), vlib.coq_list([vlib.zlit(t) for t in tg]))
+                                for kk, a, tg in refs])
+            scope = vlib.coq_list([str(ds_code(case, d)) for d in op.get("datasets", [])])
+            terms.append("SGetM %d %s %s" % (codes.ucode(expand(op["id"])), scope, rs))
         elif k == "get":
             at = "None"
             if op.get("at"):
@@ -201,6 +218,9 @@ def case_term(codes, case, obs):
             nxt = oo.get("next", 0) if not (oo.get("err") or oo.get("panic")) else -7
             tokens[(op.get("reader"), op["ds"])] = oo.get("next", 0)
             rd = "SChanges %d %d %d false %s %s" % (ds_code(case, op["ds"]), since, op.get("limit", 0), ents, vlib.zlit(nxt))
+            if op.get("first_txn"):
+                w1 = w1.replace("SWrite (WBatch %d " % ds_code(case, op["ds"]), "SWrite (WTxn [(%d, " % ds_code(case, op["ds"]), 1)
+                w1 = w1[:-len(" (-1)")][:-1] + ")]) (-1)"
             if op["pause_at"] == "lock.wait":
                 terms += [w2, rd, w1]      # writer 1 is held before it takes the lock: writer 2 runs first
             else:
@@ -249,6 +269,8 @@ def with_id(i, c):
     return d
 
 
+NULLPAIR = ({"props": {"p1": "a", "p2": "@@null"}, "refs": {}}, {"props": {"p1": "a", "p3": True}, "refs": {}})
+
 # engineered pairs (old, new) around the write-time equality shortcut
 ENGINEERED = [
     # F01a: deleted -> un-deleted with one more 15-byte property (",\"ns3:p4\":\"xyz\"" vs ",\"deleted\":true")
@@ -263,6 +285,8 @@ ENGINEERED = [
     ({"props": {}, "refs": {"r1": "e2"}}, {"props": {}, "refs": {"r1": ["e2"]}}),
     # delete / undelete same content
     ({"props": {"p1": 1}, "refs": {}}, {"deleted": True, "props": {"p1": 1}, "refs": {}}),
+    # a null-valued property (Go API) replaced by another key of the same serialized length
+    NULLPAIR,
     # identical
     ({"props": {"p1": 22, "p3": [1, 2]}, "refs": {"r2": ["e1", "e3"]}}, {"props": {"p1": 22, "p3": [1, 2]}, "refs": {"r2": ["e1", "e3"]}}),
 ]
@@ -295,7 +319,12 @@ def gen_race(rng, pool, memo, ds, reader, rich=True):
         # the model applies second then first: keep memo consistent with that order
         for e in first:
             memo[(ds, e["id"])] = {k: v for k, v in e.items() if k != "id"}
-    return {"op": "race", "ds": ds, "ents": first, "second": second, "pause_at": pause, "reader": reader, "limit": 0}
+    op = {"op": "race", "ds": ds, "ents": first, "second": second, "pause_at": pause, "reader": reader, "limit": 0}
+    if rng.chance(1, 3):
+        op["first_txn"] = True
+        if pause == "batch.beforeIdCommit":
+            op["pause_at"] = "txn.beforeIdCommit"
+    return op
 
 
 def gen_batch(rng, pool, memo, ds, rich):
